@@ -14,7 +14,7 @@ RULE = ('Hypothesis workbook spec W plus 1-3 injected faults, each either replac
         'formulas are downstream) or placed in a free cell, each followed by three new dependents (=F+1 strict, =IFERROR(F,7), '
         '=ISERROR(F)). Fault kinds: unknown function (plain and _xlfn. prefixed, any case), reference to an absent sheet, to an '
         'absent workbook file, to an unreadable workbook (random bytes / truncated zip / a directory), undefined name, literal '
-        '#REF! (bare, inside SUM, sheet-qualified). File path (faults on disk) for all kinds, dict path for the kinds that exist '
+        '#REF! (bare, inside SUM, sheet-qualified), spill reference (ANCHORARRAY) to an absent sheet / absent or unreadable book / a cell holding no array formula, and a formula with two or three different unresolved names or references each under its own IFERROR/ISERROR/ISNA (expected: the ordinary intercepted value). File path (faults on disk) for all kinds, dict path for the kinds that exist '
         'there. Oracle: load + finish + calculate return; each faulty cell is #NAME? (unknown function) or #REF!/#NAME? (reference '
         'faults); every other cell equals the independent evaluation of W with the faulty cells replaced by that error value '
         '(so cells not downstream keep their fault-free value, strict dependents are errors, IFERROR/ISERROR intercept). '
@@ -25,6 +25,13 @@ WATCHDOG_S = 120
 
 FN_NAMES = ['ZZFUNC', 'NoSuchFn', '_xlfn.NEWFUNC', '_XLFN.FUTURE.FN', 'my_func', '_xlfn.zzz9']
 REFLIT = ['#REF!', '#REF!+1', 'SUM(#REF!)', 'SUM(1,#REF!)', '{q}#REF!', 'IF(TRUE,#REF!,1)']
+# formulas with several different unresolved items, each intercepted on its own: (dict-path text, file-path text, value)
+PAIRS = [('IFERROR(NO_SUCH_A,10)+IFERROR(no.such.b,20)', 'IFERROR(NO_SUCH_A,10)+IFERROR(no.such.b,20)', 30.0),
+         ('ISERROR(NO_SUCH_A)*1+ISERROR(NO_SUCH_B)*1', 'ISERROR(NO_SUCH_A)*1+ISERROR(NO_SUCH_B)*1', 2.0),
+         ('IF(ISERROR(NO_SUCH_A),5,0)+IF(ISNA(no.such.b),1,6)', 'IF(ISERROR(NO_SUCH_A),5,0)+IF(ISNA(no.such.b),1,6)', 11.0),
+         ('IFERROR(NO_SUCH_A,1)+IFERROR(zz_b,2)', 'IFERROR(NO_SUCH_A,1)+IFERROR(Gone!A1,2)', 3.0),
+         ('IFERROR(N_1x,1)+IFERROR(N_2x,2)+IFERROR(N_3x,4)', 'IFERROR(N_1x,1)+IFERROR(N_2x,2)+IFERROR(NoSuchSheet!B2,4)', 7.0),
+         ('IFERROR(NO_SUCH_A+1,10)+IFERROR(NO_SUCH_B&"x",20)', 'IFERROR(NO_SUCH_A+1,10)+IFERROR(\'[nofile1.xlsx]S1\'!A1&"x",20)', 30.0)]
 BADFILE = ['random-bytes', 'truncated-zip', 'directory', 'empty-file']
 
 
@@ -47,6 +54,11 @@ def fault_text(f, spec, at, full):
     if k == 'undefined-name':
         nm = ['NO_SUCH_NAME', 'undefined.name', 'Missing_1x'][v % 3]
         return '=%s' % nm if v % 2 else '=%s+1' % nm
+    if k == 'absent-spill':
+        tgt = ['Gone!A1', "'[nofile0.xlsx]S1'!B2", 'Z99', "'[bad0.xlsx]S1'!A1"][v % 4]
+        return ['=_xlfn.ANCHORARRAY(%s)', '=SUM(_xlfn.ANCHORARRAY(%s))', '=_xlfn.ANCHORARRAY(%s)+1'][(v // 4) % 3] % tgt
+    if k == 'intercepted-pair':
+        return '=' + PAIRS[v % len(PAIRS)][0 if full else 1]
     if k == 'ref-literal':
         t = REFLIT[v % len(REFLIT)]
         if '{q}' in t:
@@ -64,9 +76,12 @@ def allowed(kind):
 def make_bad_files(dirpath, faults):
     import zipfile
     for f in faults:
-        if f['kind'] != 'unreadable-book':
+        if f['kind'] == 'absent-spill' and f['variant'] % 4 == 3:
+            i = 0
+        elif f['kind'] != 'unreadable-book':
             continue
-        i = f['variant'] % len(BADFILE)
+        else:
+            i = f['variant'] % len(BADFILE)
         p = os.path.join(dirpath, 'bad%d.xlsx' % i)
         if os.path.exists(p):
             continue
@@ -157,7 +172,7 @@ def write_files(sp, dirpath):
 def check_spec(case):
     spec, faults, path = case['spec'], case['faults'], case['path']
     if path == 'dict':
-        faults = [f for f in faults if f['kind'] in ('unknown-fn', 'undefined-name', 'ref-literal')]
+        faults = [f for f in faults if f['kind'] in ('unknown-fn', 'undefined-name', 'ref-literal', 'intercepted-pair')]
     if not faults:
         return R(labels=['skipped:no-fault-for-path'])
     sp, fkeys = inject(spec, faults)
@@ -188,6 +203,14 @@ def check_spec(case):
     over = []
     for f, key in zip(faults, fkeys):
         got = flat.get((G.sheet_id(sp, key[0], key[1]), key[2], key[3]), 'MISSING')
+        if f['kind'] == 'intercepted-pair':
+            want = PAIRS[f['variant'] % len(PAIRS)][2]
+            if not (isinstance(got, float) and got == want):
+                fails.append(('kind|%s|%s|%s' % (path, f['kind'], 'missing' if got == 'MISSING' else X.cls(got)),
+                              '%s = %s evaluates to %r, expected %r (each unresolved item intercepted on its own)' % (
+                                  G.node_id(sp, key), fault_text(f, sp, key, path == 'dict'), got, want)))
+            over.append((list(key), want))
+            continue
         ok = isinstance(got, sut.Err) and got.t in allowed(f['kind'])
         if not ok:
             fails.append(('kind|%s|%s|%s' % (path, f['kind'], 'missing' if got == 'MISSING' else X.cls(got)),
@@ -226,7 +249,8 @@ def check_case(case):
 
 def _fault():
     return st.builds(lambda kind, variant, replace, target, loc: {'kind': kind, 'variant': variant, 'replace': replace, 'target': target, 'loc': loc},
-                     st.sampled_from(['unknown-fn', 'unknown-fn', 'absent-sheet', 'absent-book', 'unreadable-book', 'undefined-name', 'ref-literal']),
+                     st.sampled_from(['unknown-fn', 'unknown-fn', 'absent-sheet', 'absent-book', 'unreadable-book', 'undefined-name', 'ref-literal',
+                                      'absent-spill', 'intercepted-pair']),
                      st.integers(0, 11), st.booleans(), st.integers(0, 30), st.tuples(st.integers(0, 3), st.integers(0, 3), st.integers(0, 9)).map(list))
 
 
